@@ -333,12 +333,20 @@ def hostile_rule_text(rnd, ds):
 def hostile_event(rnd, uid):
     y = rnd.choice([1900, 1901, 1902, 1903, 1969, 1970, 1999, 2000, 2037, 2038, 2039, 2076, 2077, 2078, 2096, 2097, 2098, 2099, 2100, 1600, 9999] + year_types())
     m = rnd.randint(1, 12); d = rnd.choice([1, 28, 29, 30, 31, rnd.randint(1, 28)]); d = min(d, dim(y, m)) if rnd.random() < 0.95 else d
+    # digits that are no date (the reader takes any eight digits): month 0, 13..99, day 0, 32..99; RDATE/EXDATE lists with such members;
+    # now and then an EXDATE or RDATE list next to the rules
+    if rnd.random() < 0.06: m = rnd.choice([0, 13, 14, 20, 50, 99])
+    if rnd.random() < 0.04: d = rnd.choice([0, 32, 40, 99])
     timed = rnd.random() < 0.7
     ds = (y, m, d, rnd.choice([0, 12, 23]), rnd.choice([0, 30, 59]), rnd.choice([0, 59])) if timed else (y, m, d)
     tz = rnd.choice(ZONES) if timed and rnd.random() < 0.2 else None
     rules = [hostile_rule_text(rnd, ds) for _ in range(rnd.choice([1, 1, 1, 2, 3]))]
+    extra = []
+    if rnd.random() < 0.15:
+        vals = ['%04d%02d%02dT%02d%02d%02dZ' % (rnd.choice([y, y + 1]), rnd.choice([1, 6, 12, 13, 0, 99]), rnd.choice([1, 15, 31, 32, 0]), rnd.choice([0, 23, 24, 25]), rnd.choice([0, 59, 60]), rnd.choice([0, 59, 60, 61])) for _ in range(rnd.randint(1, 5))]
+        extra.append(rnd.choice(['RDATE:', 'EXDATE:']) + ','.join(vals))
     return {'uid': uid, 'ds': inst(ds), 'tz': bool(tz), 'rtext': ' | '.join(rules), 'count': 0, 'until': [],
-            'ics': event_ics(uid, ds, rules, tzid=tz)}
+            'ics': event_ics(uid, ds, rules, tzid=tz, extra=extra)}
 
 
 # ---------------------------------------------------------------- BYEASTER / SHIFT (C17)
